@@ -313,3 +313,17 @@ def deref(ctx, fn: FuncInfo, e: ast.expr, at: ast.AST | None = None, depth: int 
         e = d
         depth -= 1
     return e
+
+
+def filter_facts_at(ctx, fn: FuncInfo, node: ast.AST, res: Resolver | None = None) -> list[frozenset]:
+    """Like facts_at, but only the branch facts that *select* (the other branch continues normally);
+    facts whose other branch can only abort are guards, not filters, and are left out."""
+    g = ctx.cfg(fn)
+    res = res or resolver(ctx, fn)
+    n = g.node_of(node)
+    keep = []
+    for test, pol, tid in g.branch_facts(n):
+        other = next(s for s in g.succ[tid] if g.nodes[s].kind == 'branch' and g.nodes[s].polarity != pol)
+        if g.exit in g.reachable_from(other):
+            keep.append((test, pol, tid))
+    return facts_cnf(keep, res)
